@@ -217,7 +217,16 @@ pub fn serve(o: ohkami::Ohkami) -> usize {
     id
 }
 
+/// panicked server-side tasks, without the one panic no property forbids (DESIGN.md 7.1 (s)): `write_all(..).expect(..)` /
+/// `flush().expect(..)` in Response::send after the peer went away — the connection is dead anyway
 pub fn panicked_tasks() -> Vec<(usize, String, String, u32, String)> {
+    all_panicked_tasks()
+        .into_iter()
+        .filter(|(_, _, file, _, msg)| !(file.ends_with("ohkami/src/response/mod.rs") && (msg.starts_with("Failed to send response") || msg.starts_with("Failed to flush connection"))))
+        .collect()
+}
+
+pub fn all_panicked_tasks() -> Vec<(usize, String, String, u32, String)> {
     with(|w| {
         w.tasks
             .iter()
